@@ -41,6 +41,13 @@ func UserFields() []ref.Field {
 		for _, n := range LongFixedOctets {
 			userFields = append(userFields, ref.Field{ID: uint16(1000 + n), Ent: UserEnt, Len: uint16(n), Type: ref.TOctets, Name: fmt.Sprintf("userFixedOctets%d", n)})
 		}
+		// a string element declared with a fixed length (the library encodes every string with a
+		// length prefix whatever its declared length; used by C16 only, never compared with the
+		// reference encoding)
+		FixedString = ref.Field{ID: 900, Ent: UserEnt, Len: 16, Type: ref.TString, Name: "userFixedString16"}
+		if err := registry.PutInfoElement(*entities.NewInfoElement(FixedString.Name, FixedString.ID, LibType(FixedString.Type), FixedString.Ent, FixedString.Len), UserEnt); err != nil {
+			panic(err)
+		}
 		for _, f := range userFields {
 			ie := entities.NewInfoElement(f.Name, f.ID, LibType(f.Type), f.Ent, f.Len)
 			if err := registry.PutInfoElement(*ie, UserEnt); err != nil {
@@ -50,6 +57,9 @@ func UserFields() []ref.Field {
 	})
 	return userFields
 }
+
+// FixedString is a user-registered string element declared with a fixed length of 16.
+var FixedString ref.Field
 
 // UserField returns the user-registered element of type t (variable-length for octets/string).
 func UserField(t ref.Type) ref.Field { return UserFields()[int(t)] }
